@@ -205,6 +205,14 @@ class Check:
             "wall_s": round(time.time() - self.t0, 2),
             "violations": len(violations),
         }
+        try:
+            od = os.path.join(os.environ.get("VERIF_WORK") or os.path.join(VERIF, ".work"), "obligations")
+            os.makedirs(od, exist_ok=True)
+            with open(os.path.join(od, "%s.json" % self.pid), "w") as fh:
+                json.dump([dict(key=o["key"], status=o["status"], sites=o.get("sites") or [], construct=str(o.get("construct") or "")[:300])
+                           for o in self.obligations], fh)
+        except OSError:
+            pass
         ev["coverage"].update(self.extra)
         os.makedirs(EVID, exist_ok=True)
         p = os.path.join(EVID, "%s.json" % self.pid)
